@@ -2,7 +2,7 @@
    Statements only; every proof is `exact <lemma>`.  Real-number reading
    (instance RNum e of the Num-polymorphic model; e stands for erf, unused here). *)
 From Coq Require Import Reals ZArith List Bool Lia Lra.
-From Sky Require Import Result PyList Num NumR G_stat M_Stat S_Stat P_Stat P_StatR P_StatTop P_StatGamma.
+From Sky Require Import Result PyList Num NumR G_stat M_Stat S_Stat P_Stat P_StatR P_StatTop P_StatGamma P_StatCallee.
 Import ListNotations.
 Open Scope R_scope.
 
@@ -91,7 +91,11 @@ Print Assumptions C12_computable_refuted_all.
 (* PARTIAL: called with llhratio and grads (calculate_test_statistic(...,
    llhratio=, grads=)), the variant is computable for every fit result, for
    each of the four real calculate_ns_grad2 signatures, whenever the callee
-   itself returns *)
+   itself returns.  The premise "the callee returns" is discharged for the real
+   bodies below (C12_computable_zerosig / _multi / _nsprofile); it is FALSE for
+   ZeroSigH0 before evaluate() (C12_zerosig_before_evaluate) and for NsProfile
+   with an ns index other than 0 (C12_nsprofile_other_index), which the
+   constructor of that class excludes (exactly one floating parameter). *)
 Theorem C12_computable_partial : forall e floating nm ll fpv (llh : callee R) grads,
   In nm floating -> zlen fpv = zlen floating -> zlen grads = zlen floating ->
   In (c_sig llh) [sig_TCLLHRatio; sig_ZeroSigH0SingleDatasetTCLLHRatio; sig_MultiDatasetTCLLHRatio;
@@ -101,7 +105,8 @@ Theorem C12_computable_partial : forall e floating nm ll fpv (llh : callee R) gr
 Proof. exact top_direct_taylor. Qed.
 Print Assumptions C12_computable_partial.
 
-(* the call as it was before fix b047c50 is rejected by all four signatures *)
+(* regression pin (a characterisation of the model's constants): the call as it
+   was before fix b047c50 is rejected by all four signatures *)
 Theorem C12_old_call_rejected : forall sg,
   In sg [sig_TCLLHRatio; sig_ZeroSigH0SingleDatasetTCLLHRatio; sig_MultiDatasetTCLLHRatio;
          sig_NsProfileMultiDatasetTCLLHRatio] ->
@@ -109,6 +114,95 @@ Theorem C12_old_call_rejected : forall sg,
   /\ bind_ok sg [K_ns; K_ns_pidx; K_src_params_recarray; K_tl] = true.
 Proof. intros sg H; split; [exact (real_sigs_reject_old_call sg H) | exact (real_sigs_accept_current_call sg H)]. Qed.
 Print Assumptions C12_old_call_rejected.
+
+(* ------------------------------------------------------------------ the real calculate_ns_grad2 bodies as callees *)
+(* ZeroSigH0SingleDatasetTCLLHRatio.calculate_ns_grad2, every input (cache = the
+   per-event ns-gradients left by evaluate(), None otherwise) *)
+Theorem C12_callee_zerosig : forall e cache nsel npure ns i,
+  zerosig_body (RNum e) cache nsel npure ns i =
+    match cache with
+    | None => Err RuntimeError
+    | Some g => Ok (- fold_right Rplus 0 (map (fun x => x * x) g)
+                    - IZR npure / ((IZR nsel + IZR npure - ns) * (IZR nsel + IZR npure - ns)))
+    end.
+Proof. exact zerosig_body_char. Qed.
+Print Assumptions C12_callee_zerosig.
+
+(* with that callee the zero-ns TS is the documented expression, b < 0 and TS >= 0
+   for every fit result with ns = 0 unless the likelihood is flat (no pure
+   background event and every cached gradient 0) *)
+Theorem C12_ts0_zerosig : forall e floating nm ll fpv grads i a g nsel npure,
+  get_gflp_idx floating nm = Ok i -> py_get fpv i = Ok 0 -> py_get grads i = Ok a ->
+  zlen fpv = zlen floating ->
+  (0 <= nsel)%Z -> (0 <= npure)%Z -> (0 < nsel + npure)%Z ->
+  ((0 < npure)%Z \/ exists x, In x g /\ x <> 0) ->
+  let b := - fold_right Rplus 0 (map (fun x => x * x) g)
+           - IZR npure / ((IZR nsel + IZR npure - 0) * (IZR nsel + IZR npure - 0)) in
+  b < 0
+  /\ taylor (RNum e) floating nm ll fpv (zerosig_callee (RNum e) (Some g) nsel npure) grads
+     = Ok (- 2 * (a * a / (4 * b)))
+  /\ 0 <= - 2 * (a * a / (4 * b)).
+Proof. exact ts0_zerosig. Qed.
+Print Assumptions C12_ts0_zerosig.
+
+(* REFUTED for the flat likelihood: at b = 0 the documented expression
+   TS * (4 b) = -2 a^2 defines no value (no solution for a <> 0, every real for
+   a = 0); the code returns NaN there (known finding) *)
+Theorem C12_ts0_flat_refuted : forall a : R,
+  ~ exists x, forall y, y * (4 * 0) = - 2 * (a * a) <-> y = x.
+Proof. exact ts0_undefined_at_b0. Qed.
+Print Assumptions C12_ts0_flat_refuted.
+
+Theorem C12_computable_zerosig : forall e floating nm ll fpv grads g nsel npure,
+  In nm floating -> zlen fpv = zlen floating -> zlen grads = zlen floating ->
+  exists ts, taylor (RNum e) floating nm ll fpv (zerosig_callee (RNum e) (Some g) nsel npure) grads = Ok ts.
+Proof. exact taylor_computable_zerosig. Qed.
+Print Assumptions C12_computable_zerosig.
+
+Theorem C12_zerosig_before_evaluate : forall e floating nm ll fpv grads i a nsel npure,
+  get_gflp_idx floating nm = Ok i -> py_get fpv i = Ok 0 -> py_get grads i = Ok a -> zlen fpv = zlen floating ->
+  taylor (RNum e) floating nm ll fpv (zerosig_callee (RNum e) None nsel npure) grads = Err RuntimeError.
+Proof. exact taylor_zerosig_before_evaluate. Qed.
+Print Assumptions C12_zerosig_before_evaluate.
+
+(* MultiDatasetTCLLHRatio.calculate_ns_grad2 over per-dataset callees *)
+Theorem C12_computable_multi : forall e floating nm ll fpv grads fs (subs : list (callee R)),
+  In nm floating -> zlen fpv = zlen floating -> zlen grads = zlen floating ->
+  length fs = length subs ->
+  (forall c, In c subs ->
+     In (c_sig c) [sig_TCLLHRatio; sig_ZeroSigH0SingleDatasetTCLLHRatio; sig_MultiDatasetTCLLHRatio;
+                   sig_NsProfileMultiDatasetTCLLHRatio]
+     /\ forall x j, exists b, c_body c x j = Ok b) ->
+  exists ts, taylor (RNum e) floating nm ll fpv (multi_callee (RNum e) fs subs) grads = Ok ts.
+Proof. exact taylor_computable_multi. Qed.
+Print Assumptions C12_computable_multi.
+
+Theorem C12_multi_value : forall e f1 f2 (c1 c2 : callee R) ns i b1 b2,
+  In (c_sig c1) [sig_TCLLHRatio; sig_ZeroSigH0SingleDatasetTCLLHRatio; sig_MultiDatasetTCLLHRatio;
+                 sig_NsProfileMultiDatasetTCLLHRatio] ->
+  In (c_sig c2) [sig_TCLLHRatio; sig_ZeroSigH0SingleDatasetTCLLHRatio; sig_MultiDatasetTCLLHRatio;
+                 sig_NsProfileMultiDatasetTCLLHRatio] ->
+  c_body c1 (ns * f1) i = Ok b1 -> c_body c2 (ns * f2) i = Ok b2 ->
+  multi_body (RNum e) [f1; f2] [c1; c2] ns i = Ok (b1 * (f1 * f1) + b2 * (f2 * f2)).
+Proof. exact multi_two_value. Qed.
+Print Assumptions C12_multi_value.
+
+(* NsProfileMultiDatasetTCLLHRatio: one floating parameter (enforced by its
+   constructor), hence ns index 0: computable; any other index is rejected *)
+Theorem C12_computable_nsprofile : forall e nm ll x a (inner : callee R),
+  In (c_sig inner) [sig_TCLLHRatio; sig_ZeroSigH0SingleDatasetTCLLHRatio; sig_MultiDatasetTCLLHRatio;
+                    sig_NsProfileMultiDatasetTCLLHRatio] ->
+  (forall ns, exists b, c_body inner ns 0%Z = Ok b) ->
+  exists ts, taylor (RNum e) [nm] nm ll [x] (nsprofile_callee inner) [a] = Ok ts.
+Proof. exact taylor_computable_nsprofile. Qed.
+Print Assumptions C12_computable_nsprofile.
+
+Theorem C12_nsprofile_other_index : forall e floating nm ll fpv grads (inner : callee R) i a,
+  get_gflp_idx floating nm = Ok i -> i <> 0%Z -> py_get fpv i = Ok 0 -> py_get grads i = Ok a ->
+  zlen fpv = zlen floating ->
+  taylor (RNum e) floating nm ll fpv (nsprofile_callee inner) grads = Err ValueError.
+Proof. exact taylor_nsprofile_other_index. Qed.
+Print Assumptions C12_nsprofile_other_index.
 
 (* ------------------------------------------------------------------ trial-based p-values *)
 (* every non-empty sample (any length, ties, duplicates), every threshold *)
@@ -172,7 +266,8 @@ Print Assumptions C12_pval_counts.
 
 (* ------------------------------------------------------------------ gamma-fit branch (at / above the switch) *)
 (* calculate_pval_from_gammafit_to_trials: threshold check, truncation to the
-   first n_max trials, THEN the tail selection; errors *)
+   first n_max trials, THEN the tail selection; errors (a characterisation of the
+   model's definition: regression pin for the hand-written statement order) *)
 Theorem C12_gamma_counts : forall ts t eta m,
   gammafit_counts ts t eta m =
     let ts' := if (m <? zlen ts)%Z then py_slice ts 0 m else ts in
@@ -216,6 +311,24 @@ Theorem C12_gamma_at_eta : forall e (sf : Z -> list Z -> Z -> R),
   p = IZR (zlen (filter (fun x => (eta <? x)%Z) ts')) / IZR (zlen ts').
 Proof. exact gamma_at_eta. Qed.
 Print Assumptions C12_gamma_at_eta.
+
+(* the objective handed to scipy.optimize.minimize (truncated_gamma_logpdf) is
+   minus the log-likelihood of the gamma density truncated at eta: with
+   c = gamma.cdf(eta) < 1 and qs = the gamma.pdf values (> 0) of the tail *)
+Theorem C12_gamma_objective : forall e c qs,
+  c < 1 -> (forall q, In q qs -> 0 < q) ->
+  tg_objective (RNum e) c (fold_right Rplus 0 (map ln qs)) (zlen qs)
+  = - fold_right Rplus 0 (map (fun q => ln (q / (1 - c))) qs).
+Proof. exact tg_objective_is_truncated_nll. Qed.
+Print Assumptions C12_gamma_objective.
+
+(* regression pin: start values and box of the fit *)
+Theorem C12_gamma_fit_setup : forall e,
+  gf_x0_a (RNum e) = 3 / 4 /\ gf_x0_scale (RNum e) = 9 / 5
+  /\ gf_bounds_00 (RNum e) = 1 / 10 /\ gf_bounds_01 (RNum e) = 10
+  /\ gf_bounds_10 (RNum e) = 1 / 10 /\ gf_bounds_11 (RNum e) = 10.
+Proof. exact K_gf_start_and_bounds. Qed.
+Print Assumptions C12_gamma_fit_setup.
 
 (* calculate_pval_from_trials_mixed with both branches: range for every input *)
 Theorem C12_mixed_range : forall e (sf : Z -> list Z -> Z -> R),
